@@ -1,4 +1,6 @@
 import FrappyModel.Node.Dispatch
+import FrappyModel.Datatypes.Import
+import FrappyModel.Node.AccessLock
 /-
 C04 — No invalid, forbidden or out-of-limit request ever reaches the driver.
 
@@ -186,6 +188,53 @@ def exchangeOKB [DecidableEq J] [DecidableEq V] (vd : Verdict V) (o : Obs J V) :
 def obsOf (n : Node J V) (o : Outcome J V) : Obs J V := ⟨o.reply, o.calls, o.emits, cache n, cache o.node⟩
 
 
+/-! ## the datatype oracle against the datatype model (C01)
+
+For a parameter whose datatype is one of the ten SECoP kinds the value the dispatcher must hand on is not taken on
+trust from `datatypes.py`: the monitor recomputes `acceptWire dt j (some cur)` with the C01 model (import + validate
+with the cached value as `previous`: a partial struct merged into the current value, a longer array NOT cut down to
+the cached length) and demands that the implementation's datatype answered the same — same value, representation
+included, or the same bad-value class.  Together with `ExchangeOK` (driver call = that answer) the driver call is
+judged against the value computed HERE. -/
+
+section c01
+variable {F : Type} [FloatOps F]
+
+def sameErr : Frappy.Err → Frappy.Err → Bool
+  | .range, .range => true
+  | .wrongType, .wrongType => true
+  | .other _, .other _ => true
+  | _, _ => false
+
+/-- one row of the accept oracle (what the real datatype answered) agrees with the datatype model -/
+def acceptFaithfulB (dt : DType F) (j : JVal F) (prev : Option (PVal F)) (impl : Except Frappy.Err (PVal F)) : Bool :=
+  match Frappy.Datatypes.acceptWire dt j prev, impl with
+  | .ok a, .ok b => PVal.same a b
+  | .error e, .error e' => sameErr e e'
+  | _, _ => false
+
+/-- the parameter oracle built from the datatype model: with it the C04 theorems speak about `acceptWire` itself -/
+def c01Accept (dt : DType F) (cls : Frappy.Err → Frappy.Node.Err) (j : JVal F) (prev : Option (PVal F)) :
+    Except Frappy.Node.Err (PVal F) :=
+  match Frappy.Datatypes.acceptWire dt j prev with
+  | .ok v => .ok v
+  | .error e => .error (cls e)
+
+end c01
+
+/-! ## concurrency: the limits in force at the moment of the driver call
+
+"satisfies the module's CURRENT dynamic limits": with several threads (a poller reading a limit from the hardware,
+another module writing it) the limits that count are those in force when the driver is called, not those of some
+earlier moment of the same request. -/
+
+/-- every driver call of a run of the lock-discipline system was made with a value inside the limit of that moment -/
+def CallsWithinLimit (s : AccessLock.LState) : Prop := ∀ c ∈ s.calls, c.1 ≤ c.2
+
+/-- monitor for one driver call of the real code: the value, and the module as it was at the moment of the call -/
+def callWithinLimitsB (env : Env V) (mod : Module J V) (attr : String) (v : V) : Bool :=
+  decide (LimitsOK env mod attr v)
+
 /-! ## histories -/
 
 def isRead : DriverCall V → Bool
@@ -193,22 +242,23 @@ def isRead : DriverCall V → Bool
   | _ => false
 
 /-- what the statement demands of one request of a history, given the node as it is at that moment -/
-def RequestOK (pre : Predef) (env : Env V) (n : Node J V) (r : Request J) (o : Obs J V) : Prop :=
+def RequestOK (pre : Predef) (env : Env V) (n : Node J V) (r : Request J V) (o : Obs J V) : Prop :=
   match r with
   | .change spec j => ExchangeOK (changeVerdict pre env n spec j) o
   | .do_ spec data => ExchangeOK (doVerdict pre n spec data) o
   | .read _ _ => o.calls.all isRead = true          -- a read never writes or executes
+  | .assign _ _ _ => o.calls = []                   -- an assignment inside the module is not a driver call
 
-instance [DecidableEq J] [DecidableEq V] (pre : Predef) (env : Env V) (n : Node J V) (r : Request J) (o : Obs J V) :
+instance [DecidableEq J] [DecidableEq V] (pre : Predef) (env : Env V) (n : Node J V) (r : Request J V) (o : Obs J V) :
     Decidable (RequestOK pre env n r o) := by
   unfold RequestOK; split <;> infer_instance
 
-def requestOKB [DecidableEq J] [DecidableEq V] (pre : Predef) (env : Env V) (n : Node J V) (r : Request J)
+def requestOKB [DecidableEq J] [DecidableEq V] (pre : Predef) (env : Env V) (n : Node J V) (r : Request J V)
     (o : Obs J V) : Bool := decide (RequestOK pre env n r o)
 
 /-- the statement along a whole history of the model: every request is judged against the node (cache,
 hence dynamic limits) left behind by the requests before it -/
-def HistoryOK (pre : Predef) : Node J V → List (Env V × Request J) → Prop
+def HistoryOK (pre : Predef) : Node J V → List (Env V × Request J V) → Prop
   | _, [] => True
   | n, (env, r) :: rest =>
     RequestOK pre env n r (obsOf n (step pre env n r)) ∧ HistoryOK pre (step pre env n r).node rest
